@@ -3,6 +3,7 @@ package main
 // C03 — the cascade of html/tree against spec/Cascade.tla.
 
 import (
+	"github.com/benoitkugler/webrender/html/boxes"
 	"encoding/json"
 	"flag"
 	"fmt"
@@ -172,8 +173,46 @@ func casKey(s *casScn, got int) string {
 	return "winner:" + want + "-expected:" + gotCar + "-used"
 }
 
+// c03Page: the page-context cascade (Cascade.tla, PageInit): two @page rules matching the first page.
+func c03Page(sels []string, winner int, line []byte, out *drv.Out) {
+	rule := func(k int) string {
+		return fmt.Sprintf(`@page %s{margin-top:%dpx;@top-left{content:"x";width:%dpx;height:5px}}`, sels[k-1], 10*k, 30+k)
+	}
+	doc := `<html><head><style>@page{size:200px 100px;margin:20px}` + rule(1) + rule(2) + `body{page:n;margin:0}</style></head><body><p>a</p></body></html>`
+	pages, err := drv.Layout(doc, &drv.Opts{})
+	if err != nil || len(pages) == 0 {
+		out.Fatal(fmt.Sprint("page-context document: ", err))
+		return
+	}
+	out.Count("page-context-scenarios")
+	gotTop := float64(pages[0].MarginTop.V())
+	gotW := -1.0
+	for _, c := range pages[0].Children {
+		if mb, ok := c.(*boxes.MarginBox); ok && mb.AtKeyword == "@top-left" {
+			gotW = float64(mb.Width.V())
+		}
+	}
+	if wantTop := float64(10 * winner); gotTop != wantTop {
+		out.Disagree("page-context:page-declaration", fmt.Sprintf("@page %s / @page %s: the first page has margin-top %g, the more specific (or later) rule gives %g", sels[0], sels[1], gotTop, wantTop),
+			map[string]interface{}{"doc": doc, "scenario": json.RawMessage(line)})
+	}
+	if wantW := float64(30 + winner); gotW != wantW {
+		out.Disagree("page-context:margin-box-declaration", fmt.Sprintf("@page %s / @page %s: the @top-left box of the first page is %g wide, the more specific (or later) rule gives %g", sels[0], sels[1], gotW, wantW),
+			map[string]interface{}{"doc": doc, "scenario": json.RawMessage(line)})
+	}
+}
+
 func c03Main(args []string) int {
 	return drv.Main("c03", args, func(fs *flag.FlagSet) {}, func(line []byte, out *drv.Out) {
+		var pg struct {
+			Mode   string   `json:"mode"`
+			Sels   []string `json:"sels"`
+			Winner int      `json:"winner"`
+		}
+		if json.Unmarshal(line, &pg) == nil && pg.Mode == "page" {
+			c03Page(pg.Sels, pg.Winner, line, out)
+			return
+		}
 		var s casScn
 		if err := json.Unmarshal(line, &s); err != nil {
 			out.Fatal("bad scenario: " + err.Error())
